@@ -1,6 +1,7 @@
 import SJ.Model.Machine
 import SJ.Model.Stream
 import SJ.Model.Ser
+import SJ.Model.Raw
 /-!
 # I/O faults (C13)
 
@@ -32,6 +33,16 @@ def runFault (env : Env) (s : St) (i : Nat) : Bytes → ROut
     | .error (c, a) => .err c (errIdx env a i)
 
 def parseFault (env : Env) (bs : Bytes) : ROut := runFault env init 0 bs
+
+/-- `from_reader::<Box<RawValue>>` over `bs` followed by an I/O error (raw_value builds): `deserialize_raw_value` skips
+    whitespace, starts the reader's raw buffer, skips one value, checks the buffer with `String::from_utf8`, then
+    `end()` reads on. Every point at which the clean run would have met the end of input (an `Eof…` code, or success:
+    `end()` and the number scanner both ask for one more byte) meets the fault instead; an error on a delivered byte
+    (syntax, invalid UTF-8 of the captured text, trailing characters) is reported as in the clean run. -/
+def rawFault (cfg : Cfg) (bs : Bytes) : ROut :=
+  match SJ.Model.Raw.rawTop cfg .reader bs with
+  | .ok _ _ => .io
+  | .err c idx => if Gen.classify c == .eof then .io else .err c idx
 
 /-- writer that accepts `m` bytes then fails: (bytes accepted, failed?) -/
 def writeFault (bufs : List Bytes) (m : Nat) : Bytes × Bool :=
